@@ -49,9 +49,9 @@ pub fn run(ctx: &'static Ctx) {
         let r = if form < 2 { tdcheck::observe(&text).map(|_| ()) } else { observe_tx(&text, &Signer::Fixed(U256::from_u64(3), U256::from_u64(4), false)).map(|_| ()) };
         crash(ctx, "json-nesting", i, &format!("{},depth={}", if form < 2 { "typeddata" } else { "transaction" }, match depth { 0..=64 => "<=64", 65..=128 => "65-128", _ => ">128" }), if form < 2 { "typeddata" } else { "transaction" }, &text, r);
     });
-    let odd_types = ["", " ", "[]", "[", "]", "[1", "1]", "[][", "uint", "int", "uint0", "uint8x", "bytes", "bytes00", "bytes033", "uint256[", "uint256[]]", "uint256[-1]", "uint256[18446744073709551616]", "uint256[4294967296]", "uint08", "uint99999999999", "bytes4294967297", "\u{ff11}", "uint\u{661}", "M", "M[]", "EIP712Domain", "string[1][", "a b", "uint256 x", "(", "uint8[999999]"];
-    ctx.sweep("type-name-neighbourhood", "33 malformed or extreme member type names (empty, unbalanced brackets, huge sizes, non-ASCII digits, self reference) with scalar, array and object values", (odd_types.len() * 3) as u64, |i| {
-        let ty = odd_types[i as usize / 3]; let v = [J::n("1"), J::Arr(vec![J::n("1")]), J::obj(vec![("x", J::n("1"))])][i as usize % 3].clone();
+    let odd_types = ["", " ", "[]", "[", "]", "[1", "1]", "[][", "uint", "int", "uint0", "uint8x", "bytes", "bytes00", "bytes033", "uint256[", "uint256[]]", "uint256[-1]", "uint256[18446744073709551616]", "uint256[4294967296]", "uint256[1099511627776]", "uint256[576460752303423487]", "uint256[576460752303423488]", "uint256[9223372036854775808]", "uint256[18446744073709551615]", "uint8[2][18446744073709551615]", "S[1152921504606846976]", "uint08", "uint99999999999", "bytes4294967297", "\u{ff11}", "uint\u{661}", "M", "M[]", "EIP712Domain", "string[1][", "a b", "uint256 x", "(", "uint8[999999]"];
+    ctx.sweep("type-name-neighbourhood", "40 malformed or extreme member type names (empty, unbalanced brackets, fixed sizes of 2^32, 2^40, 2^59-1, 2^59, 2^63, 2^64-1, non-ASCII digits, self reference) with scalar, one-element array, object and empty-array values", (odd_types.len() * 4) as u64, |i| {
+        let ty = odd_types[i as usize / 4]; let v = [J::n("1"), J::Arr(vec![J::n("1")]), J::obj(vec![("x", J::n("1"))]), J::Arr(vec![])][i as usize % 4].clone();
         let doc = tdcheck::simple_doc(vec![("M".into(), tdcheck::sv(&[("x", ty)]))], "M", J::obj(vec![("x", v)])); let text = doc.to_json().to_text();
         crash(ctx, "type-name-neighbourhood", i, "odd-type-name", "typeddata", &text, tdcheck::observe(&text).map(|_| ()));
     });
